@@ -59,8 +59,7 @@ def run(prop, tier, seed, sections, fn_groups, bounds, explanation, rule, outsid
         rep.add_results(name, mine, len(pairs) - len(mine), exhaustive=exhaustive)
     if prop in SR.COHERENCE_WITNESSES:
         rep.add_results("F-COHERENCE witness (outside the coherent region; concrete replay only)", [SR.coherence_witness_result(prop)], 0, exhaustive=None)
-    fns = encoded_functions()
-    rep.functions = R.source_digest(*[f for g in fn_groups for f in fns[g]])
+    rep.functions = R.safe_digest(lambda: R.source_digest(*[f for g in fn_groups for f in encoded_functions()[g]]))
     rep.bounds = dict(bounds, per_input_path_cap=max_paths)
     rep.assumptions = ["oracles engine/oracles/{recon,labels}.py are the documented event / labelling model",
                        "z3 linear integer arithmetic", "CPython operator dispatch on engine.forksym.Lin"] + list(assumptions)
